@@ -6,7 +6,7 @@ import sys
 
 ROOT = os.path.dirname(os.path.dirname(os.path.abspath(__file__)))
 
-HOOK_COMMITS = ["b1474d3", "17f8504", "209f7d4", "d1c653d", "95035df", "920cc08"]
+HOOK_COMMITS = ["b1474d3", "17f8504", "209f7d4", "d1c653d", "95035df", "920cc08", "6e834a5"]
 
 CHECKS = {
     "C07": {
@@ -167,11 +167,12 @@ CHECKS["C14"] = {
 
 CHECKS["C10"] = {
     "category": "model_checking",
-    "technique": "TLA+ ConnAdv.tla (reaction of the multiplexer to every frame-header class) enumerated by TLC and replayed on a real Mux (T2); table-driven extremes and seeded mutations through the real decoders, replica handler, inbound queue and noise stream under catch_unwind",
-    "text": "PARTIAL. Decided: every mux header path of the bounded alphabet; single-field extremes of the std conversions and genesis; validly signed consensus "
+    "technique": "TLA+ ConnAdv.tla (reaction of the multiplexer to every frame-header class) and Listener.tla (stages of the connection establishment x malformed input classes) enumerated by TLC and replayed on a real Mux and on the listener of a real running node (T2); table-driven extremes and seeded mutations through the real decoders, replica handler, inbound queue and noise stream under catch_unwind",
+    "text": "PARTIAL. Decided: every mux header path of the bounded alphabet; every (stage, malformed class, endpoint) path of the connection establishment against a "
+            "running node, which must stay up, keep admitting honest peers and drain its pools; single-field extremes of the std conversions and genesis; validly signed consensus "
             "messages with maximal views / empty / oversized collections; garbage ciphertext. Sampled only: decoder totality over byte strings (seeded mutations, "
             "truncations, random strings).",
-    "note": "Not covered: preface and RPC framing (crate-private without a hook), arbitrary byte strings exhaustively (a fuzzing question). Four defects found by this check were repaired (known_findings.txt).",
+    "note": "Not covered: RPC request bodies of the crate-private request types, arbitrary byte strings exhaustively (a fuzzing question). Four defects found by this check were repaired (known_findings.txt).",
     "design_ref": "§7 C10, §9",
 }
 
